@@ -30,6 +30,9 @@ DECLS = {
     'n': dict(x=(-4, -1), y=(-1, 1)),
     'g88': dict(x=(0, 7), y=(0, 7)),
     'm': dict(x=(0, 3), y=(-2, 1), z=(0, 1)),
+    # lattices of isolated points with a slice variable that only the care set mentions
+    'L': dict(x=(0, 4), y=(0, 2), z=(0, 1)),
+    'Ln': dict(x=(-5, -1), y=(-3, -1), z=(0, 1)),
 }
 
 
@@ -105,6 +108,34 @@ def build(inst):
         cs_ = ' /\\ '.join(cs)
         care = ctx.add_expr(cs_)
         desc = f'f = {fs}; care = {cs_}'
+    elif kind == 'slices':
+        # f: isolated points of a 3 x 2 lattice in (x, y); the care set depends on z, which f does not mention: in
+        # each z-slice the don't-care points join the lattice points along x, along y, both or not at all, so that
+        # boxes bounded in z can give a smaller cover than boxes spanning z
+        idx = inst['arg']
+        rnd = random.Random(idx)
+        (xl, _), (yl, _) = decl['x'], decl['y']
+        lattice = [(xl + 2 * i, yl + 2 * j) for i in range(3) for j in range(2)]
+        pairs = [(a, b) for a in ('x', 'y', 'both', 'none') for b in ('x', 'y', 'both', 'none') if a != b]
+        dirs = pairs[idx % len(pairs)]
+        keep = 1.0 if (idx // len(pairs)) % 2 == 0 else 0.85       # every pair once unthinned, then thinned
+        on = [p for p in lattice if rnd.random() < keep]
+        if len(on) < 3:
+            on = lattice
+        f = ctx.add_expr(_points_formula(['x', 'y'], on))
+        dcs = []
+        for v, d in enumerate(dirs):
+            between = []
+            if d in ('x', 'both'):
+                between += [(xl + 2 * i + 1, yl + 2 * j) for i in range(2) for j in range(2)]
+            if d in ('y', 'both'):
+                between += [(xl + 2 * i, yl + 1) for i in range(3)]
+            if d == 'both':
+                between += [(xl + 2 * i + 1, yl + 1) for i in range(2)]
+            between = [p for p in between if rnd.random() < keep]
+            dcs += [(p[0], p[1], v) for p in between]
+        care = ~ ctx.add_expr(_points_formula(['x', 'y', 'z'], dcs))
+        desc = f'lattice f = {on}; don\'t-care joins per z-slice: {dirs}, {len(dcs)} points'
     else:
         raise ValueError(kind)
     return ctx, names, ranges, pts, f, care, desc
@@ -234,6 +265,9 @@ def instances_for(tier, seed):
         dens = rnd.choice([0.4, 0.5, 0.6])
         m = sum(1 << i for i in range(64) if rnd.random() < dens)
         insts.append(instance('mask', d, (m or 1, None)))
+    nsl = 48 if tier == 'quick' else 600
+    for d in ('L', 'Ln'):
+        insts += [instance('slices', d, seed * 48 + i) for i in range(nsl)]
     nb = 40 if tier == 'quick' else 600
     for d in ('g44', 'g333', 's', 'n', 'm', 'g88'):
         insts += [instance('boxes', d, seed * 1000 + i) for i in range(nb)]
